@@ -368,8 +368,8 @@ func OneShot(kind string, b *B, asserts []*Term, timeoutMs int) (Result, string)
 	return Unknown, txt
 }
 
-// OneShotValues is OneShot with model values for want (on sat).
-func OneShotValues(kind string, b *B, asserts []*Term, want []*Term, timeoutMs int) (Result, []uint64, string) {
+// OneShotScript builds the complete SMT-LIB text of a one-shot query (with get-value for want).
+func OneShotScript(kind string, b *B, asserts []*Term, want []*Term) string {
 	roots := append(append([]*Term{}, asserts...), want...)
 	script, names := b.Script(roots)
 	var sb strings.Builder
@@ -388,6 +388,16 @@ func OneShotValues(kind string, b *B, asserts []*Term, want []*Term, timeoutMs i
 		}
 		sb.WriteString("))\n")
 	}
+	return sb.String()
+}
+
+// OneShotValues is OneShot with model values for want (on sat).
+func OneShotValues(kind string, b *B, asserts []*Term, want []*Term, timeoutMs int) (Result, []uint64, string) {
+	return RunScript(kind, OneShotScript(kind, b, asserts, want), len(want), timeoutMs)
+}
+
+// RunScript runs a prepared one-shot script (safe to call from several goroutines).
+func RunScript(kind string, script string, nwant int, timeoutMs int) (Result, []uint64, string) {
 	var argv []string
 	switch kind {
 	case "z3":
@@ -402,7 +412,7 @@ func OneShotValues(kind string, b *B, asserts []*Term, want []*Term, timeoutMs i
 		return Unknown, nil, "unknown solver kind " + kind
 	}
 	cmd := exec.Command(argv[0], argv[1:]...)
-	cmd.Stdin = strings.NewReader(sb.String())
+	cmd.Stdin = strings.NewReader(script)
 	done := make(chan struct{})
 	var out []byte
 	go func() { out, _ = cmd.CombinedOutput(); close(done) }()
@@ -420,19 +430,18 @@ func OneShotValues(kind string, b *B, asserts []*Term, want []*Term, timeoutMs i
 	verdict := strings.TrimSpace(lines[0])
 	switch verdict {
 	case "unsat":
-		if strings.Contains(lines[0], "(error") {
-			return Unknown, nil, txt
-		}
+		// the verdict is the first output line, so no assertion was rejected before it (an
+		// error would have been printed first); get-value after unsat prints an error, ignored
 		return Unsat, nil, txt
 	case "sat":
-		if len(want) == 0 {
+		if nwant == 0 {
 			return Sat, nil, txt
 		}
 		rest := strings.Join(lines[1:], " ")
 		if strings.Contains(rest, "(error") {
 			return Unknown, nil, txt
 		}
-		vals := parseValues(rest, len(want))
+		vals := parseValues(rest, nwant)
 		if vals == nil {
 			return Unknown, nil, "get-value parse: " + txt
 		}
